@@ -273,6 +273,58 @@ static void alias_case(op_t op, MODULE_TYPE mt, int native, uint64_t N, uint64_t
   case_end(rs >= 1);
 }
 
+// limb strides of 4 GiB and more, in a sparse mapping that only reserves address space
+#include <sys/mman.h>
+static void huge_stride_case(op_t op, MODULE_TYPE mt, int native, uint64_t N, unsigned rep) {
+  if (op_is_big(op)) return;  // big vectors have stride N by definition
+  char key[160];
+  snprintf(key, sizeof key, "%s|limb stride >= 2^29 words%s%s", op_name[op], mt == NTT120 ? ",ntt120" : "", native ? "" : ",generic");
+  if (!case_begin(key, "N=%" PRIu64 " rep=%u", N, rep)) return;
+  rng_t* r = crng();
+  const MODULE* mod = get_module(N, mt, native);
+  static const uint64_t SL[] = {(1ull << 29), (1ull << 29) + 1, (1ull << 30) + 8, 3ull << 28};
+  // which of the three vectors gets the huge stride rotates with rep
+  const uint64_t big = SL[rep % ARRAY_LEN(SL)], rows = 3;
+  const uint64_t slr = (rep % 3 == 0) ? big : N + 1, sla = (rep % 3 == 1) ? big : N, slb = (rep % 3 == 2) ? big : N + 2;
+  const size_t lr = ((rows - 1) * slr + N) * 8 + 8192, la = ((rows - 1) * sla + N) * 8 + 8192, lb = ((rows - 1) * slb + N) * 8 + 8192;
+  uint8_t* mr = mmap(0, lr, PROT_READ | PROT_WRITE, MAP_PRIVATE | MAP_ANONYMOUS | MAP_NORESERVE, -1, 0);
+  uint8_t* ma = mmap(0, la, PROT_READ | PROT_WRITE, MAP_PRIVATE | MAP_ANONYMOUS | MAP_NORESERVE, -1, 0);
+  uint8_t* mb = mmap(0, lb, PROT_READ | PROT_WRITE, MAP_PRIVATE | MAP_ANONYMOUS | MAP_NORESERVE, -1, 0);
+  if (mr == MAP_FAILED || ma == MAP_FAILED || mb == MAP_FAILED) { case_end(0); return; }
+  int64_t *R = (int64_t*)(mr + 4096), *A = (int64_t*)(ma + 4096), *B = (int64_t*)(mb + 4096);
+  for (uint64_t l = 0; l < rows; l++)
+    for (uint64_t i = 0; i < N; i++) {
+      A[l * sla + i] = rng_sbits(r, 60);
+      B[l * slb + i] = rng_sbits(r, 60);
+      R[l * slr + i] = 0x5555;
+    }
+  int64_t p = rng_sbits(r, 40);
+  if (op == OP_AUTO) p |= 1;
+  switch (op) {
+    case OP_ZERO: vec_znx_zero(mod, R, rows, slr); break;
+    case OP_COPY: vec_znx_copy(mod, R, rows, slr, A, rows, sla); break;
+    case OP_NEGATE: vec_znx_negate(mod, R, rows, slr, A, rows, sla); break;
+    case OP_ADD: vec_znx_add(mod, R, rows, slr, A, rows, sla, B, rows, slb); break;
+    case OP_SUB: vec_znx_sub(mod, R, rows, slr, A, rows, sla, B, rows, slb); break;
+    case OP_ROTATE: vec_znx_rotate(mod, p, R, rows, slr, A, rows, sla); break;
+    default: vec_znx_automorphism(mod, p, R, rows, slr, A, rows, sla); break;
+  }
+  int64_t* e = malloc(N * 8);
+  for (uint64_t l = 0; l < rows; l++) {
+    for (uint64_t i = 0; i < N; i++) {
+      const int64_t al = A[l * sla + i], bl = B[l * slb + i];
+      e[i] = op == OP_ZERO ? 0 : op == OP_COPY ? al : op == OP_NEGATE ? -al : op == OP_ADD ? al + bl : al - bl;
+    }
+    if (op == OP_ROTATE || op == OP_AUTO) ring_map(N, op == OP_AUTO, p, A + l * sla, e);
+    if (memcmp(R + l * slr, e, N * 8)) { viol("oracle", "%s with limb strides res=%" PRIu64 " a=%" PRIu64 " b=%" PRIu64 " words: limb %" PRIu64 " is not the operation applied to input limb %" PRIu64 " (N=%" PRIu64 ")", op_name[op], slr, sla, slb, l, l, N); break; }
+  }
+  free(e);
+  cnt("huge_stride_calls", 1);
+  sample("3 limbs, one vector with limbs %" PRIu64 " words apart", big);
+  munmap(mr, lr); munmap(ma, la); munmap(mb, lb);
+  case_end(1);
+}
+
 // the two INPUTS of a binary operation are the same vector (same pointer, same stride) read with different limb counts -
 // nothing forbids reading one buffer twice; optionally the output is that vector too (res == a == b)
 static void same_inputs_case(op_t op, MODULE_TYPE mt, int native, uint64_t N, uint64_t rs, uint64_t as, uint64_t bs, int res_too, unsigned slc, unsigned rep) {
@@ -524,6 +576,9 @@ void run_C08(void) {
         if (!th && ALL_N[ni] > 4096 && cfg) continue;
         concurrent_case(ALL_N[ni], cfg == 2 ? NTT120 : FFT64, cfg != 1, cfg == 0 ? 8 : 4, rep);
       }
+  for (op_t op = OP_ZERO; op <= OP_AUTO; op++)
+    for (int cfg = 0; cfg < 3; cfg++)
+      for (unsigned rep = 0; rep < 6; rep++) huge_stride_case(op, cfg == 2 ? NTT120 : FFT64, cfg != 1, rep & 1 ? 64 : 8, rep);
   // both inputs the same vector
   for (size_t ni = 0; ni < N_ALL_N; ni++) {
     static const op_t BOPS[] = {OP_ADD, OP_SUB, OP_BIG_ADD, OP_BIG_SUB, OP_BIG_ADD_SMALL2, OP_BIG_SUB_SMALL2};
